@@ -689,6 +689,7 @@ package checkers
 //@   requires @handed-a-char-range rng.Op == syntax.OpCharRange
 
 //@ func (*regexpSimplifyChecker).walkGroup
+//@   decreases 2 * rxDepth(g)
 //@   requires @handed-a-group g.Op == syntax.OpGroup || g.Op == syntax.OpCapture || g.Op == syntax.OpNamedCapture || g.Op == syntax.OpGroupWithFlags || g.Op == syntax.OpAtomicGroup
 
 // paramTypeCombine (C09): parameters are merged under one type expression only when both were spelled the same way, so
@@ -698,3 +699,36 @@ package checkers
 //@   nosafety node shapes are the subject of the C01 sweep
 //@   requires c != nil
 //@   loop 1 body @merged-only-when-spelled-alike len(list) == len(list$old) ==> astEq(old(params.List[$i + 1].Type), old(params.List[$i].Type))
+
+// ---- termination (C01 "no checker hangs"): every function that calls itself names a measure that is non-negative and
+// strictly smaller at each recursive call. astDepth / rxDepth are the heights of parsed syntax / regexp trees (finite and
+// acyclic: theories ast-valid and regex-syntax-valid); typeDepth is the nesting depth of a type literal - it says nothing
+// about the underlying type of a defined type, which is how types become cyclic.
+//@ func identOf
+//@   decreases astDepth(x)
+//@ func (*commentedOutCodeChecker).isPermittedStmt
+//@   decreases astDepth(stmt)
+//@ func (*sortSliceChecker).unwrapSlice
+//@   decreases astDepth(e)
+//@ func (*typeDefFirstChecker).receiverType
+//@   decreases astDepth(e)
+//@ func (*typeUnparenChecker).removeRedundantParens
+//@   decreases astDepth(e)
+//@ func (*unlambdaChecker).lenArgs
+//@   terminates_by the recursive call is on the argument list of a call expression that is an element of args: a strictly smaller part of a finite tree
+//@ func (*badRegexpChecker).walk
+//@   decreases rxDepth(e)
+//@ func (*badRegexpChecker).markGoodCarets
+//@   decreases rxDepth(e)
+//@ func (*regexpSimplifyChecker).walk
+//@   decreases 2 * rxDepth(e) + 1
+//@ func (*regexpSimplifyChecker).walkAlt
+//@   decreases 2 * rxDepth(alt)
+//@ func (*regexpSimplifyChecker).walkConcat
+//@   decreases 2 * rxDepth(concat)
+//@ func (*sqlQueryChecker).typeIsRowsLike
+//@   decreases typeDepth(typ)
+//@ func (*unnamedResultChecker).typeName
+//@   decreases typeDepth(typ)
+//@ func (*sqlQueryChecker).typeHasExecMethodRec
+//@   terminates_by every defined type is entered at most once (the seen set), and between two defined types the recursion descends through finitely nested type literals
